@@ -375,7 +375,7 @@ def sweeps(tier, rng):
         tmp = tempfile.mkdtemp(prefix="fvC19_")
         try:
             class Info: pass
-            for i in range(max(3, n // 40)):
+            for i in range(max(12, n // 5)):
                 path = os.path.join(tmp, "f%d.ufo" % i)
                 w = UFOWriter(path)
                 info = Info(); info.familyName = "Fam%d" % i; info.unitsPerEm = rng.choice([1000, 2048]); info.ascender = 800; info.descender = -200
@@ -398,6 +398,19 @@ def sweeps(tier, rng):
                     try: gs.writeGlyph(nm, g)
                     except Exception: names = [x for x in names if x != nm]
                 gs.writeContents(); w.writeLayerContents(); w.close()
+                # a second session on the same UFO: more glyphs, some named like the lower-cased FILE NAME of a glyph already there
+                # (glyph "Ab" lives in "A_b.glif"; a new glyph "a_b" would get "a_b.glif" — the same file ignoring case)
+                if rng.chance(60):
+                    w2 = UFOWriter(path); gs = w2.getGlyphSet()
+                    stems = [fn[:-5].lower() for fn in gs.contents.values() if fn[:-5].lower() != fn[:-5]]
+                    more = [st for st in stems if st and st not in names and rng.chance(70)] + [gen_name(rng) or "y" for _ in range(rng.randint(0, 2))]
+                    for nm in dict.fromkeys(more):
+                        if nm in names or not all(ord(c) >= 32 and ord(c) != 127 for c in nm): continue
+                        if _f1_pattern(nm, 0) and len(_u2f(nm, [], "", ".glif")) > 255: continue
+                        g = G(); g.width = len(nm) * 10
+                        try: gs.writeGlyph(nm, g); names.append(nm)
+                        except Exception: pass
+                    gs.writeContents(); w2.writeLayerContents(); w2.close()
                 r = UFOReader(path)
                 info2 = Info(); r.readInfo(info2)
                 bad = None
